@@ -215,18 +215,22 @@ def main():
         for cl in f["clauses"]:
             cc[cl[0]] += 1
             V.report(cl[0], "%s|%s" % (cl[1], cl[2]), by_id[f["id"]], text="case=%s" % f["id"])
-    cov = {"states": mc.distinct, "transitions": mc.generated, "traces_validated_against_impl": len(cases),
+    # the control loop itself: several coupling / in-net controllers on levels and orders (MC_MultiCtl, Trace_MultiCtl)
+    from . import multictl
+    ctl = multictl.part(V, tr, sd)
+    cov = {"states": mc.distinct + ctl["control_loop_model_states"], "transitions": mc.generated, "traces_validated_against_impl": len(cases) + ctl["control_loop_runs"],
+           **ctl,
            "samples": [cases[0]], "configurations_in_model": mc.distinct, "runs": len(cases),
            "by_kind": dict(collections.Counter(c["k"]["kind"] for c in cases)),
            "vectorised": sum(1 for c in cases if c["k"]["vec"]),
            "failing_clause_counts": dict(cc), "trace_spec_states": res.distinct,
            "evaluations": len(cases), "distinct_nontrivial": sum(1 for c in cases if c["k"]["vec"]),
-           "rule": "coupling configurations of GenMulti (4 controller kinds x inputs x scalings x efficiencies x scalar/vectorised x level); "
+           "rule": "coupling configurations of GenMulti (4 controller kinds x inputs x scalings x efficiencies x scalar/vectorised x level) + configurations of the control-loop model MC_MultiCtl (controller subsets x levels x orders) run through run_control; "
                    "non-trivial = vectorised element indices"}
     rc = V.finish()
     core.write_evidence("C20", "model_checking", cov, time.time() - t0, len(V.violations),
                         assumptions=["designed gases with heating values 10 and 20 kWh/kg (constant properties)",
-                                     "one coupling controller per multinet; controller orders / several levels in one run and coupled time series are not enumerated yet",
+                                     "control-loop part: up to three controllers (three coupling kinds, two in-net setters) on two levels x three orders over three member nets (MC_MultiCtl); coupled time series are not enumerated",
                                      "round trip = product of efficiencies is checked on the model (TLC) and per direction on the implementation"])
     print("C20 %s: model configurations=%d, coupled runs=%d, violations=%d, known=%d, %.0fs"
           % (tr, mc.distinct, len(cases), len(V.violations), len(V.known), time.time() - t0))
